@@ -27,7 +27,8 @@ def extra_builds(tier):
 
 
 def bounds(tier):
-    return {"honest_pairs": len(pairs(tier)), "sig_bits": 512, "key_bits": 256, "S_plus_kL": "all k with S+kL < 2^256"}
+    return {"honest_pairs": len(pairs(tier)), "sig_bits": 512, "key_bits": 256, "S_plus_kL": "all k with S+kL < 2^256",
+            "components": "C15 scalar, scalar hooks, codec"}
 
 
 def validate_models(tier):
